@@ -28,17 +28,17 @@ CHECKS = {
  "C04": dict(
    engine="E-prod + O-total (mc/src/c04.rs; nightly build): child processes, catch_unwind, counting allocator", cat="exploration", ref="DESIGN.md §3 C04",
    technique="bounded exhaustive enumeration of untrusted inputs by length and structural class for every consumer (every length x 5 content classes, every stream tag byte, a full grammar product of password-hash strings plus structural mutants), each call executed in a child process under catch_unwind with a counting allocator",
-   text="41 byte-string consumers (incl. heap/locked container parsers) x every length up to 2x overhead + 64 (+256) x 5 classes; 256 tag bytes x 3 lengths x 4 pull forms; ~250k password-hash strings incl. every memory cost m=8..=2100 KiB and cost fields at the edges of their integer types (parse/re-encode/needs_rehash only); oracle: returns Ok or Err, no unwind/abort/signal, no single allocation above 16 MiB + 8x input.",
+   text="41 byte-string consumers (incl. heap/locked container parsers) x every length up to 2x overhead + 64 (+256) x 5 classes; 256 tag bytes x 3 lengths x 4 pull forms; ~250k password-hash strings incl. every memory cost m=8..=2100 KiB and cost fields at the edges of their integer types (parse/re-encode/needs_rehash only); oracle: returns Ok or Err, no unwind/abort/signal, no single allocation above 16 MiB + 8x input. Sealed-box openers are also given boxes that carry no ephemeral key (parsed by from_bytes / assembled by from_parts).",
    note="Contents within a length are represented by five classes; overflow checks are enabled in the harness build so wrapped arithmetic panics."),
  "C05": dict(
    engine="E-prod bounded product enumerator (mc/src/c05.rs)", cat="exploration", ref="DESIGN.md §3 C05",
    technique="bounded exhaustive enumeration: full product of a structured scalar alphabet x a structured point-encoding alphabet (complete integer intervals around every boundary, complete low-order table), each cell through dryoc and libsodium X25519; plus all ordered honest pairs for DH/kx",
-   text="~160 scalars x ~900 (thorough ~10k) point encodings incl. every integer u in [0,512), around p, 2^255, 2^256 and the complete low-order table; base-point multiplication, DH commutativity, box precomputation, kx session keys (classic + object API) against libsodium; kx must refuse every low-order peer.",
+   text="~160 scalars x ~900 (thorough ~10k) point encodings incl. every integer u in [0,512), around p, 2^255, 2^256 and the complete low-order table; base-point multiplication, DH commutativity, box precomputation, kx session keys (classic + object API) against libsodium; kx must refuse every low-order peer. Constructed peer keys whose raw shared secret is a chosen structured value (one half zero, bitwise-disjoint halves, equal halves, single bytes, u=9; 21 targets x 6 scalars, built with libsodium group operations and confirmed by libsodium before use) must be accepted with libsodium's keys.",
    note="Trusted: two references — libsodium ref10 X25519 in-process and a pure-Python RFC 7748 ladder (ref/curve_check.py) over a dumped sub-product of ~8k cells. The 2^512 input space is represented by the stated structural classes."),
  "C06": dict(
    engine="E-prod + E-fault (mc/src/c06.rs)", cat="fault_enumeration", ref="DESIGN.md §3 C06",
    technique="exhaustive product over seeds x message lengths x modes x APIs for signing (bytes == libsodium), and exhaustive single-fault enumeration for verification (every bit of message/signature/public key, complete S+kL family, complete small-order R x A table, non-canonical encodings, mode cross-over, truncations) with verdict equality against libsodium",
-   text="8 seeds x every length 0..=130 (600 thorough) x 4 contents x pure/combined/pre-hashed x classic/object API; 24 base signatures x ~2k faults each incl. mixed-order points (A+T and R+T for every torsion point T x 24 messages, built with libsodium's group operations: strict and cofactored verification disagree on them); accept/reject must equal libsodium's strict verifier and be reject for every mutation.",
+   text="8 seeds x every length 0..=130 (600 thorough) x 4 contents x pure/combined/pre-hashed x classic/object API; 24 base signatures x ~2k faults each incl. mixed-order points (A+T and R+T for every torsion point T x 24 messages, built with libsodium's group operations: strict and cofactored verification disagree on them); accept/reject must equal libsodium's strict verifier and be reject for every mutation. Torsion in both public key and R chosen to cancel (~1.4k signatures libsodium's strict verifier accepts) must be accepted.",
    note="Trusted: two references — libsodium 1.0.18 strict verification/signing in-process and a pure-Python RFC 8032 implementation (sign pure + pre-hashed, strict verify; ref/curve_check.py) over ~1.8k dumped cases."),
  "C07": dict(
    engine="E-prod (mc/src/c07.rs) + Python specification reference (ref/spec_check.py)", cat="exploration", ref="DESIGN.md §3 C07",
@@ -58,22 +58,22 @@ CHECKS = {
  "C10": dict(
    engine="E-prod (mc/src/c10.rs)", cat="exploration", ref="DESIGN.md §3 C10",
    technique="bounded exhaustive enumeration of password-hash strings: full product passwords x costs in both directions (dryoc-made checked by an independent parser and libsodium's verifier; libsodium-made under dryoc), both algorithms x salt lengths x hash lengths for parse/re-encode, and the complete needs-rehash truth table",
-   text="144 (pw,ops,mem) cells x 2 directions; ~2k (alg, saltlen, hashlen) strings quick / 12.9k thorough; 768 needs_rehash cells vs libsodium and the definition.",
+   text="144 (pw,ops,mem) cells x 2 directions; ~2k (alg, saltlen, hashlen) strings quick / 12.9k thorough; 768 needs_rehash cells vs libsodium and the definition. Both algorithms alternated on one thread at equal costs (every order of <= 3 steps over verify-argon2i / verify-argon2id / make).",
    note="Trusted: libsodium's PHC encoder/verifier; RNG seam H3."),
  "C11": dict(
    engine="E-state bounded call histories with an owned RNG (mc/src/c11.rs)", cat="exploration", ref="DESIGN.md §3 C11",
    technique="exhaustive enumeration of bounded call histories over the inventory of randomised entry points (each alone x N, all ordered pairs interleaved, hub triples) under an owned deterministic RNG seam and under OsRng; oracle on returned values (no repeat, no all-zero, no constant byte)",
-   text="40 entry points (keygens, key pairs, gen() on containers, sealed-box ephemeral key, stream header, pwhash salts) -> 40 singles x 64/512 calls + 1 560 ordered pairs + triples, in two environments; a source scan lists randomness call sites outside the inventory.",
+   text="40 entry points (keygens, key pairs, gen() on containers, sealed-box ephemeral key, stream header, pwhash salts) -> 40 singles x 64/512 calls + 1 560 ordered pairs + triples, in two environments; a source scan lists randomness call sites outside the inventory. Salt lengths 0..=24 through PwHash::hash: refused or entirely fresh; getrandom short reads (64-byte cap) for values of 65..4097 bytes.",
    note="OS generator quality not examined; nightly-only entry points (locked containers) are exercised in the nightly leg when built."),
  "C12": dict(
    engine="E-prod (mc/src/c12.rs) + Python BLAKE2b reference", cat="exploration", ref="DESIGN.md §3 C12",
    technique="bounded exhaustive enumeration: full product subkey length 0..=80 x 10 ids x 4 contexts x 5 master keys against libsodium and a Python hashlib.blake2b re-computation; pairwise separation checked over all outputs per key",
-   text="16 200 cells; lengths 16..=64 must equal both references, others must Err; no output equal to or prefix of another.",
+   text="16 200 cells; lengths 16..=64 must equal both references, others must Err; no output equal to or prefix of another. Every length 65..=1100 and 2^k +- 64 must be refused; derivations after every sequence of <= 2 other BLAKE2b activities (abandoned / refused generic-hash states, one-shot hashes, other derivations) on a fresh thread.",
    note="Trusted: libsodium + hashlib."),
  "C13": dict(
    engine="E-prod (mc/src/c13.rs)", cat="exploration", ref="DESIGN.md §3 C13",
    technique="bounded exhaustive enumeration: every box seed length 0..=128 x content, the 32-byte seed alphabet for kx/sign/from_secret_key/ed->x conversion, password-derived pairs, each against libsodium's output or its construction evaluated with libsodium primitives",
-   text="516 box-seed cells, 41 (265 thorough) 32-byte seeds x 4 derivations, 8 password-derived pairs; in-place seed forms into pre-filled buffers; SigningKeyPair::from_secret_key on secret keys with a stale / zero / inverted public half (the pair must be the seed's pair and sign verifiably under its own public key).",
+   text="516 box-seed cells, 41 (265 thorough) 32-byte seeds x 4 derivations, 8 password-derived pairs; in-place seed forms into pre-filled buffers; SigningKeyPair::from_secret_key on secret keys with a stale / zero / inverted public half (the pair must be the seed's pair and sign verifiably under its own public key). derive_keypair under the four Config presets against libsodium at its own limit constants (incl. 1 GiB x 4 passes).",
    note="Dishonest Ed25519 public keys are outside the quantifier."),
  "C14": dict(
    engine="E-state history-replay explorer on the real allocator and kernel (mc/src/pm.rs, nightly build)", cat="model_checking", ref="DESIGN.md §3 C14",
@@ -83,12 +83,12 @@ CHECKS = {
  "C15": dict(
    engine="E-state history-replay explorer + release observer (mc/src/pm.rs, nightly build)", cat="model_checking", ref="DESIGN.md §3 C15",
    technique="exhaustive history-replay exploration of container operation sequences with an allocator release observer: every released allocation is read in full immediately before free() and must be all zero",
-   text="All histories up to length 5 (quick) / 6 (thorough) over constructors (incl. raw heap containers), write, resize up/down (forcing reallocation, truncation, spare capacity), clone, lock/protect transitions and drop; at each of the release events the whole allocation incl. spare capacity is checked for non-zero bytes and alloc/release counts must balance.",
+   text="All histories up to length 5 (quick) / 6 (thorough) over constructors (incl. raw heap containers), write, resize up/down (forcing reallocation, truncation, spare capacity), clone, lock/protect transitions and drop; at each of the release events the whole allocation incl. spare capacity is checked for non-zero bytes and alloc/release counts must balance. Environment legs: mlockall; mprotect performed-but-reported-failed from the k-th request; the first mprotect of the t-th protection-changing transition refused and not performed (every t). Second observation point: blocks freed to the general allocator while a container resizes must not hold its content.",
    note="Trusted: hook H2 reports every deallocation of the page-aligned allocator right before free(); stack and Vec<u8> containers are outside the statement."),
  "C16": dict(
    engine="E-prod (mc/src/c16.rs, nightly build so heap/locked containers are included)", cat="exploration", ref="DESIGN.md §3 C16",
    technique="bounded exhaustive enumeration: every object kind x payload length x container x codec round-trips and equals libsodium's layout; for every fixed-length container type every element count 0..=2N through 5 decoders and TryFrom must be refused unless exactly N",
-   text="4 message objects x lengths 0..=80 (300) x 6 codecs; 7 key objects x 5 keys x 2 codecs; 7 fixed-length types x counts 0..=2N x 5 decoders; heap/locked containers x lengths x 5 decoders; password-hash objects and their Config for every salt length 8..=64 x 7 hash lengths x JSON/bincode/parts; the 4 preset Configs; slice-copying constructors with_data / with_data_and_mac; zero constructors of every fixed length.",
+   text="4 message objects x lengths 0..=80 (300) x 6 codecs; 7 key objects x 5 keys x 2 codecs; 7 fixed-length types x counts 0..=2N x 5 decoders; heap/locked containers x lengths x 5 decoders; password-hash objects and their Config for every salt length 8..=64 x 7 hash lengths x JSON/bincode/parts; the 4 preset Configs; slice-copying constructors with_data / with_data_and_mac; zero constructors of every fixed length. All byte views of a kx Session (arrays, slices, parts; stack and Vec) agree and equal libsodium's pair.",
    note="Vec<u8> used as a fixed-length field type cannot enforce lengths at decode time (observation, not alarmed)."),
  "C18": dict(
    engine="E-conf configuration matrix (mc/src/probe.rs built 4x, conf/c18.py)", cat="exploration", ref="DESIGN.md §3 C18",
@@ -98,7 +98,7 @@ CHECKS = {
  "C19": dict(
    engine="E-fault (mlock refusal by in-process interposer) on the E-state explorer (mc/src/pm.rs, nightly build)", cat="fault_enumeration", ref="DESIGN.md §3 C19",
    technique="exhaustive single-point fault enumeration over environment answers: every history up to the depth bound is re-executed for every k with the k-th and all later mlock calls refused; Result-returning calls must return Err, survivors keep the C14 kernel invariant, drop keeps the C14 final and C15 release conditions",
-   text="Every (history, k) pair for histories of length <= 4 (quick) / 5 (thorough): refusal is injected by defining the mlock symbol in the harness binary; panics are caught and attributed to the operation; kernel view and release observer checked as in C14/C15.",
+   text="Every (history, k) pair for histories of length <= 4 (quick) / 5 (thorough): refusal is injected by defining the mlock symbol in the harness binary; panics are caught and attributed to the operation; kernel view and release observer checked as in C14/C15. The enumeration is repeated on a reduced unit set in processes whose soft RLIMIT_MEMLOCK is 0.",
    note="Trusted: the interposed mlock is the only lock entry point dryoc uses on Linux; only mlock is refused."),
  "C20": dict(
    engine="E-prog program-table checker (typestate/check.py)", cat="model_checking", ref="DESIGN.md §3 C20",
